@@ -608,6 +608,11 @@ mut("c19-not-silent-named-or", "C19", "cmd/gts/select.go",
     "\tfilter := gts.Or(filters...)\n\tif *invert {\n\t\tfilter = gts.Not(filter)\n\t}\n",
     "\tany := gts.Or(filters...)\n\tfilter := any\n\tif *invert {\n\t\tfilter = gts.Not(any)\n\t}\n", silent=True)
 
+mut("c19-values-only-reverted", "C19", "feature.go", "\t\t\t\tfor _, v := range vv[1:] {\n", "\t\t\t\tfor _, v := range vv {\n", ["VALUES-ONLY|gts.Qualifier|match#1"], note="the repaired defect, reintroduced")
+mut("c19-values-only-silent-items", "C19", "feature.go",
+    "\t\t\tfor _, vv := range f.Props {\n\t\t\t\tfor _, v := range vv[1:] {\n\t\t\t\t\tif re.MatchString(v) {\n\t\t\t\t\t\treturn true\n\t\t\t\t\t}\n\t\t\t\t}\n\t\t\t}\n",
+    "\t\t\tfor _, item := range f.Props.Items() {\n\t\t\t\tif re.MatchString(item.Value) {\n\t\t\t\t\treturn true\n\t\t\t\t}\n\t\t\t}\n", silent=True)
+
 if __name__ == "__main__":
     here = os.path.dirname(os.path.abspath(__file__))
     ids = [m["id"] for m in M]
